@@ -13,7 +13,7 @@ import (
 
 func init() {
 	register("C08", runC08, propMeta{
-		Explanation: "The equality 'installed set = what the history denotes' quantifies over the contents of maps and slices after arbitrary operation sequences; no static argument in reach proves the hand-written sorted insertion correct, and this check does not claim it. It decides structural necessary conditions, each of which breaks the algebra if violated: (H1) every sort of rule entities orders by descending salience (10 sites) and tool.BinarySearch searches a descending list: when the probed salience is smaller than the target it continues to the left (high = mid-1), otherwise to the right (low = mid+1), under `low <= high`, with mid = (low+high)/2; (H2) in both copies of the incremental merge every insertion has the form append(s[:p], append([v], s[p:]...)...) with the same slice variable and the same p, p being the low (when mid == 0) or mid result of BinarySearch(s, v.Salience) on that same variable, and the deletion before a re-insertion removes exactly index IndexMap[v.RuleName]; (H3) after every insertion, on every path to the next iteration, a fresh name->position index is built by ranging the slice just modified and becomes the current index; (H4) a same-salience replacement stores v at the indexed position under the guard v.Salience == old.Salience; (H5) every path through one iteration of the merge loop updates both the name map (map[k] = v) and the list (replacement or insertion); the copies the merge starts from are complete (every entry of the old map, every position of the old list) and the published container receives exactly the three merged locals; (H6) the full build fills a fresh container from one parse, lists every parsed rule once, sorts, indexes and then replaces the installed container; removal keeps an entity exactly when no given name equals its name, then re-sorts and re-indexes into a fresh container; (H7) the listener stores a rule only on the miss edge of a lookup of its own name (duplicates rejected); (H8) the two merge copies (builder and pool) yield identical summaries of H2–H5; IsExist reads the installed map under buildLock. NOT decided: the algebra itself (that these steps compose to the denoted set for every history), including the reliance of the salience-changed branch on slice aliasing. (H10) a full or incremental update and a removal reach every element of gp.rbSlice: the algebra holds of what runs on the instances. (H11) outside the compile step no field of a compiled rule is written: what an update installs under a name is the rule as compiled from the update's text, salience included. (H12) a rule is named by the text between the quotes as written: the listener cuts off only the quotes, so names that differ by a blank stay two rules.",
+		Explanation: "The equality 'installed set = what the history denotes' quantifies over the contents of maps and slices after arbitrary operation sequences; no static argument in reach proves the hand-written sorted insertion correct, and this check does not claim it. It decides structural necessary conditions, each of which breaks the algebra if violated: (H1) every sort of rule entities orders by descending salience (10 sites) and tool.BinarySearch searches a descending list: when the probed salience is smaller than the target it continues to the left (high = mid-1), otherwise to the right (low = mid+1), under `low <= high`, with mid = (low+high)/2; (H2) in both copies of the incremental merge every insertion has the form append(s[:p], append([v], s[p:]...)...) with the same slice variable and the same p, p being the low (when mid == 0) or mid result of BinarySearch(s, v.Salience) on that same variable, and the deletion before a re-insertion removes exactly index IndexMap[v.RuleName]; (H3) after every insertion, on every path to the next iteration, a fresh name->position index is built by ranging the slice just modified and becomes the current index; (H4) a same-salience replacement stores v at the indexed position under the guard v.Salience == old.Salience; (H5) every path through one iteration of the merge loop updates both the name map (map[k] = v) and the list (replacement or insertion); the copies the merge starts from are complete (every entry of the old map, every position of the old list) and the published container receives exactly the three merged locals; (H6) the full build fills a fresh container from one parse, lists every parsed rule once, sorts, indexes and then replaces the installed container; removal keeps an entity exactly when no given name equals its name, then re-sorts and re-indexes into a fresh container; (H7) the listener stores a rule only on the miss edge of a lookup of its own name (duplicates rejected); (H8) the two merge copies (builder and pool) yield identical summaries of H2–H5; IsExist reads the installed map under buildLock. NOT decided: the algebra itself (that these steps compose to the denoted set for every history), including the reliance of the salience-changed branch on slice aliasing. (H10) a full or incremental update and a removal reach every element of gp.rbSlice: the algebra holds of what runs on the instances. (H11) outside the compile step no field of a compiled rule is written: what an update installs under a name is the rule as compiled from the update's text, salience included. (H12) a rule is named by the text between the quotes as written: the listener cuts off only the quotes, so names that differ by a blank stay two rules. (H13) the salience of a rule is stored by the entity's own Accept method exactly as handed over.",
 		Assumptions: []string{"sort.SliceStable", "Go append/slice semantics"},
 		Trusted:     commonTrusted,
 	})
@@ -965,6 +965,10 @@ func runC08(c *Ctx) {
 	c.ruleE5("H12-named-as-written")
 	c.only = nil
 	c.Min("H12-named-as-written", 2)
+	// ... and carries the salience written in its text: stored by the entity's own Accept method exactly as
+	// handed over by the listener (C04-O8) -- a holder that "rounds" negative saliences up to 0 installs
+	// something the update does not say
+	c.ruleSalienceAsWritten("H13-salience-as-written")
 	var sums []*mergeSummary
 	for _, spec := range [][3]string{{"builder", "RuleBuilder", "BuildRuleWithIncremental"}, {"engine", "", "updateIncremental"}} {
 		f := c.MustFn("H2-H5-merge", spec[0], spec[1], spec[2])
